@@ -671,7 +671,8 @@ class Engine(ExprMixin, StmtMixin):
         self.depth = 0
         self.no_merge = not c.get("merge", True)
         self.lib_overrides = dict(c.get("lib", {}))
-        self.externals = dict(_lt.DEFAULT_EXTERNALS, **c.get("externals", {}))
+        if c.get("externals"):
+            self.externals = dict(self.externals, **c["externals"])
         n_before = len(self.obligations)
         src = ast.get_source_segment(fi.module.src, fi.node) or ""
         self.functions_under_contract.append({
